@@ -161,15 +161,18 @@ def make_traces(prop, tier, seed, workdir, drive):
     traces.append(s3)
     # S4: exhaustive search of the implementation to a small depth around prepared states
     from concurrent.futures import ThreadPoolExecutor
-    names = ["fresh", "inflight", "answered", "paused", "between", "lastbatch", "oneshot", "module", "reactive", "siblings", "params", "binding"]
+    names = ["fresh", "inflight", "answered", "paused", "between", "lastbatch", "oneshot", "module", "reactive", "siblings", "shared",
+             "params", "binding"]
     if tier == "quick":
         names = [n for n in names if n not in ("fresh", "lastbatch")]
     if os.environ.get("VERIF_SKIP_S4"):      # first pass of the seeded-change runner: the cheap sources only
         names = []
     deeper = [] if tier == "quick" else ["-steps", "5"]      # thorough: one level deeper (binding: as configured)
-    with ThreadPoolExecutor(max_workers=11) as ex:
+    with ThreadPoolExecutor(max_workers=13) as ex:
+        # (two contexts in flight together, "shared", is one level shallower than the rest: 4 in the thorough tier)
         res = list(ex.map(lambda n: drive(["explore", "-in", n, "-n", "400000", "-out", os.path.join(workdir, "s4%s.ndjson" % n)]
-                                          + ([] if n == "binding" else deeper)), names))
+                                          + ([] if n == "binding" else ["-steps", "3" if tier == "quick" else "4"] if n == "shared"
+                                             else deeper)), names))
     stats["exhaustive_search"] = res
     traces += [os.path.join(workdir, "s4%s.ndjson" % n) for n in names]
     s2 = os.path.join(workdir, "s2.ndjson")
